@@ -258,6 +258,8 @@ class ModelCache:
         return ('ok', fp(len(victims)))
 
     def op_expire(self, op, now):
+        if op.get('now_shift') is not None:
+            now = now + op['now_shift']      # expire(now=T): the caller's own reading decides, not the clock
         victims = [it for it in self.rows.values() if it.expire is not None and it.expire < now]
         for it in victims:
             self._delete(it)
